@@ -27,7 +27,7 @@ CLAIM = {
     'technique': 'TLA+ spec (L1 semantics + L2 algorithm transcriptions) + TLC: bounded model checking, TLC-generated cases and behaviours replayed into engeom, TLC trace validation of recorded observations',
 }
 
-SCALES = (0, 0, -10, -3, 4)
+SCALES = (0, 0, -10, -3, 4, -20, 12)
 
 
 # ---------------------------------------------------------------- stateless generators
